@@ -509,3 +509,36 @@ func parseModel(text string, model map[string]uint64) {
 		}
 	}
 }
+
+// checkStandalone decides pc ∧ extra with a self-contained script after
+// (reset); it does not touch the emitted flags of the shared term table.
+func (s *Solver) checkStandalone(pc, extra []*Term) SatResult {
+	t0 := time.Now()
+	defer func() { s.Stats.Seconds += time.Since(t0).Seconds() }()
+	s.Stats.Queries++
+	var sb strings.Builder
+	if s.kind == "cvc5" {
+		sb.WriteString("(reset)\n(set-logic QF_BV)\n")
+	} else {
+		fmt.Fprintf(&sb, "(reset)\n(set-option :timeout %d)\n", s.timeoutMs)
+	}
+	sb.WriteString(dumpQuery(pc, extra))
+	lines, err := s.roundtrip(sb.String())
+	if err != nil {
+		s.restart()
+		return Unknown
+	}
+	res := Unknown
+	for _, l := range lines {
+		switch {
+		case l == "sat":
+			res = Sat
+		case l == "unsat":
+			res = Unsat
+		case strings.Contains(l, "(error"):
+			s.lastErr = l
+			return Unknown
+		}
+	}
+	return res
+}
